@@ -378,6 +378,25 @@ func c12ScriptedBody(everyByte, closing, badBuffer bool) func() {
 			if p.s.communicationVersion != 3 {
 				vrt.Failf("version", "server speaks version %d with a protocol-3 client", p.s.communicationVersion)
 			}
+			// "succeeds on both ends": the client of this exchange waits for the version reply and then for the server's
+			// acknowledgement of the shared memory - both must have been sent
+			if f, err := ca.(interface{ File() (*os.File, error) }).File(); err == nil {
+				got := sysReadAvail(int(f.Fd()))
+				f.Close()
+				var types []eventType
+				for len(got) >= headerSize {
+					h := header(got[:headerSize])
+					types = append(types, h.MsgType())
+					l := int(h.Length())
+					if l < headerSize || l > len(got) {
+						break
+					}
+					got = got[l:]
+				}
+				if len(types) < 2 || types[0] != typeExchangeProtoVersion || types[1] != typeAckShareMemory {
+					vrt.Failf("client-never-acknowledged", "the server's newSession succeeded; the protocol-3 client received %v - it waits for the version reply and for typeAckShareMemory and would fail at its initialization timeout", types)
+				}
+			}
 			// same memory: what the scripted client's process wrote into its queue mapping's file is what the server maps
 			tcl := vrt.GoProc("close-s", 2, func() { p.s.Close() })
 			vrt.WaitThreads(tcl)
